@@ -17,6 +17,8 @@ func main() {
 	switch what {
 	case "morton":
 		name, text = "Morton.lean", trMorton(filepath.Join(repo, "morton", "morton.go"))
+	case "skel":
+		name, text = "Skel.lean", trSkel(repo)
 	default:
 		die("unknown translator %q", what)
 	}
